@@ -20,7 +20,7 @@ type NodeSet []*adoc.Node
 // Quirks switch on the behaviour of open known findings (DESIGN §6). All off
 // means the strict model.
 type Quirks struct {
-	RoundNegTieAway bool // round(-k.5) = -(k+1)
+	RoundNegTieAway bool // round(-k.5) = -(k+1) for k >= 1
 }
 
 func TypeName(v Value) string {
@@ -197,7 +197,7 @@ func Round(x float64, q Quirks) float64 {
 		return x
 	}
 	fl := math.Floor(x)
-	if q.RoundNegTieAway && x < 0 && x-fl == 0.5 {
+	if q.RoundNegTieAway && x < -0.5 && x-fl == 0.5 {
 		return fl
 	}
 	if x-fl >= 0.5 {
